@@ -89,6 +89,12 @@ def gen_cases(tier, seed):
     # suite counts against suites present, incl. counts whose byte length wraps 16 bits
     cases += c08.count_cases(rng)
     cases += c08.ie_cases(rng, q)
+    # radiotap headers with 13..41 per-antenna words (the result holds 16), whole and cut
+    for n in list(range(13, 21)) + [31, 32, 41]:
+        h = rtgen.rtap_antennas(rng, n)
+        if h is not None:
+            for k in (len(h), len(h) - 1, len(h) - 2):
+                cases += ["rtap " + hx(h[:k]), "classify 1 " + hx(h[:k] + (bytes([0x80, 0]) + bytes(30) if k == len(h) else b""))]
     # radiotap headers and tag buffers
     for _ in range(300 if q else 6000):
         h = rtgen.rtap_single(rng.getrandbits(23), rng) if rng.random() < 0.5 else rtgen.rtap_multi(rng)
